@@ -1,15 +1,9 @@
 import PsyVerif.Lemmas.ExprIOWriter
+import PsyVerif.Lemmas.ExprIOAccess
 /-! The induction: every token list the fixed writer produces denotes, at the level its
-position requires, the tree `norm e`. -/
+position requires, the tree `norm e` — for every sort of the encoding (expressions, argument
+lists, member chains). -/
 namespace C02
-
-/-- The operator / unary / literal / scalar-reference fragment. -/
-def opFrag : Expr → Bool
-  | .lit _ => true
-  | .un _ e => opFrag e
-  | .bin _ l r => opFrag l && opFrag r
-  | .part _ .nil .nil => true
-  | _ => false
 
 theorem Good.render_of_body {c e ne} (h : Good (body c e) (natLevel e) ne) :
     Good (render .wide c e) (lvl c e) ne := by
@@ -31,92 +25,300 @@ theorem wf_not_rem {e : Expr} (h : wf .expr e = true) : ∀ b l r, e = .bin b l 
   simp [wf] at h
   exact h.1.1
 
-theorem good_render : ∀ (e : Expr), opFrag e = true → wf .expr e = true → ∀ ne, norm e = some ne →
-    ∀ c : Ctx, c.ok → Good (render .wide c e) (lvl c e) ne := by
+/-! ### shapes of the written text -/
+
+def Tok.isStart : Tok → Bool
+  | .lit _ | .lp | .name _ | .fn _ | .op _ => true
+  | _ => false
+
+/-- the text of an expression starts with a literal, `(`, a name or an operator (any writer) -/
+theorem render_head (m : WMode) : ∀ (e : Expr) (c : Ctx), wf .expr e = true →
+    ∃ t r, render m c e = t :: r ∧ t.isStart = true := by
   intro e
   induction e with
   | lit l =>
-    intro _ _ ne hn c _
-    apply Good.render_of_body
-    simp only [norm, normLit] at hn
-    cases hr : readLit l.tok with
-    | none => simp [hr] at hn
-    | some l' =>
-      simp only [hr] at hn
-      have g0 : Good [.lit l.tok] 9 (.lit l') := Good.lit hr
-      rcases Option.eq_none_or_eq_some l.sign.unop with h | ⟨u, h⟩
-      · simp only [h] at hn
-        cases hn
-        simpa [body, natLevel, natSign, h, sign_toks_of_none h] using g0
-      · simp only [h] at hn
-        cases hn
-        have h9 : u.prec + 1 ≤ 9 := by cases u <;> decide
-        simpa [body, natLevel, natSign, h, sign_toks_of_unop h] using Good.unary u g0 h9
-  | un u x ih =>
-    intro hf hw ne hn c _
-    apply Good.render_of_body
-    simp only [opFrag] at hf
-    simp only [wf] at hw
-    simp only [norm] at hn
-    cases hx : norm x with
-    | none => simp [hx] at hn
-    | some nx =>
-      simp only [hx, Option.map_some] at hn
+    intro c _
+    simp only [render]
+    rcases Option.eq_none_or_eq_some l.sign.unop with h | ⟨u, h⟩
+    · simp only [h]; exact ⟨_, _, rfl, rfl⟩
+    · simp only [h, sign_toks_of_unop h]
+      cases parenSignM m true u c <;> exact ⟨_, _, rfl, rfl⟩
+  | un u x _ =>
+    intro c _
+    simp only [render]
+    cases parenSignM m false u c <;> exact ⟨_, _, rfl, rfl⟩
+  | bin b l r ihl _ =>
+    intro c hw
+    simp only [wf, Bool.and_eq_true] at hw
+    simp only [render]
+    cases parenBin m.fixedBin b c with
+    | true => exact ⟨_, _, rfl, rfl⟩
+    | false =>
+      obtain ⟨t, r', h1, h2⟩ := ihl ⟨.bin b false (decide (l = r)), childGp c⟩ hw.1.2
+      refine ⟨t, r' ++ (Tok.op b.tok :: render m ⟨.bin b true true, childGp c⟩ r), ?_, h2⟩
+      simp [C02.wrap, h1]
+  | part n a nx _ _ => intro c _; simp only [render]; exact ⟨_, _, rfl, rfl⟩
+  | call f a _ => intro c _; simp only [render]; exact ⟨_, _, rfl, rfl⟩
+  | nil => intro c hw; simp [wf] at hw
+  | cons k x r _ _ => intro c hw; simp [wf] at hw
+
+theorem render_noKw (m : WMode) (e : Expr) (c : Ctx) (hw : wf .expr e = true) (R : List Tok) :
+    NoKw (render m c e ++ R) := by
+  obtain ⟨t, r, h1, h2⟩ := render_head m e c hw
+  rw [h1]
+  cases t <;> simp_all [Tok.isStart, NoKw]
+
+theorem render_part (m : WMode) (c : Ctx) (n : Nat) (a nx : Expr) :
+    render m c (.part n a nx) =
+      .name n :: ((if a = .nil then [] else .lp :: render m .top a ++ [.rp]) ++
+        (if nx = .nil then [] else .pct :: render m .top nx)) := by
+  cases a <;> cases nx <;> simp [render]
+
+def kwToks : Option Nat → List Tok
+  | some k => [.kw k]
+  | none => []
+
+theorem render_cons (m : WMode) (c : Ctx) (kw : Option Nat) (x rest : Expr) :
+    render m c (.cons kw x rest) =
+      kwToks kw ++ render m .top x ++
+        (if rest = .nil then [] else .comma :: render m .top rest) := by
+  cases kw <;> cases rest <;> simp [render, kwToks]
+
+/-! ### the statements, per sort -/
+
+def SExpr (e : Expr) : Prop :=
+  wf .expr e = true → ∀ ne, norm e = some ne → ∀ c : Ctx, c.ok → Good (render .wide c e) (lvl c e) ne
+
+def SArgs (e : Expr) : Prop :=
+  wf .args e = true → e ≠ .nil → ∀ ne, norm e = some ne →
+    ∀ R', Parses .args (render .wide .top e ++ .rp :: R') (ne, .rp :: R')
+
+def SChain (e : Expr) : Prop :=
+  wf .chain e = true → e ≠ .nil → ∀ ne, norm e = some ne →
+    ∀ R, NoLpPct R → Parses .parts (render .wide .top e ++ R) (ne, R)
+
+theorem step_lit (l : Lit) : SExpr (.lit l) := by
+  intro _ ne hn c _
+  apply Good.render_of_body
+  simp only [norm, normLit] at hn
+  cases hr : readLit l.tok with
+  | none => simp [hr] at hn
+  | some l' =>
+    simp only [hr] at hn
+    have g0 : Good [.lit l.tok] 9 (.lit l') := Good.lit hr
+    rcases Option.eq_none_or_eq_some l.sign.unop with h | ⟨u, h⟩
+    · simp only [h] at hn
       cases hn
-      have ok : (⟨.un u, none⟩ : Ctx).ok := trivial
-      have g := ih hf hw nx hx ⟨.un u, none⟩ ok
-      have hl := need_le_lvl ⟨.un u, none⟩ ok x (wf_not_rem hw)
-      exact Good.unary u g hl
-  | bin b l r ihl ihr =>
-    intro hf hw ne hn c _
-    apply Good.render_of_body
-    simp only [opFrag, Bool.and_eq_true] at hf
-    simp only [wf, Bool.and_eq_true, bne_iff_ne, ne_eq] at hw
-    obtain ⟨⟨hb, hwl⟩, hwr⟩ := hw
-    simp only [norm] at hn
-    cases hl : norm l with
-    | none => simp [hl] at hn
-    | some nl =>
-      cases hr : norm r with
-      | none => simp [hl, hr] at hn
-      | some nr =>
-        simp only [hl, hr] at hn
-        cases hn
-        have okl : (⟨.bin b false (decide (l = r)), childGp c⟩ : Ctx).ok := ⟨by simp, hb⟩
-        have okr : (⟨.bin b true true, childGp c⟩ : Ctx).ok := ⟨by simp, hb⟩
-        have gl := ihl hf.1 hwl nl hl _ okl
-        have gr := ihr hf.2 hwr nr hr _ okr
-        have nl' := need_le_lvl _ okl l (wf_not_rem hwl)
-        have nr' := need_le_lvl _ okr r (wf_not_rem hwr)
-        show Good (body c (.bin b l r)) b.prec (.bin b nl nr)
-        simp only [body]
-        cases b with
-        | rem => exact absurd rfl hb
-        | pow => exact Good.binOnce rfl rfl rfl (by decide) gl gr nl' nr'
-        | eq => exact Good.binOnce rfl rfl rfl (by decide) gl gr nl' nr'
-        | ne => exact Good.binOnce rfl rfl rfl (by decide) gl gr nl' nr'
-        | gt => exact Good.binOnce rfl rfl rfl (by decide) gl gr nl' nr'
-        | lt => exact Good.binOnce rfl rfl rfl (by decide) gl gr nl' nr'
-        | ge => exact Good.binOnce rfl rfl rfl (by decide) gl gr nl' nr'
-        | le => exact Good.binOnce rfl rfl rfl (by decide) gl gr nl' nr'
-        | add => exact Good.binLoop rfl rfl rfl (by decide) gl gr nl' nr'
-        | sub => exact Good.binLoop rfl rfl rfl (by decide) gl gr nl' nr'
-        | mul => exact Good.binLoop rfl rfl rfl (by decide) gl gr nl' nr'
-        | div => exact Good.binLoop rfl rfl rfl (by decide) gl gr nl' nr'
-        | and => exact Good.binLoop rfl rfl rfl (by decide) gl gr nl' nr'
-        | or => exact Good.binLoop rfl rfl rfl (by decide) gl gr nl' nr'
-        | eqv => exact Good.binLoop rfl rfl rfl (by decide) gl gr nl' nr'
-        | neqv => exact Good.binLoop rfl rfl rfl (by decide) gl gr nl' nr'
-  | part n a nx _ _ =>
-    intro hf _ ne hn c _
-    cases a <;> cases nx <;> simp [opFrag] at hf
-    simp only [norm] at hn
+      simpa [body, natLevel, natSign, h, sign_toks_of_none h] using g0
+    · simp only [h] at hn
+      cases hn
+      have h9 : u.prec + 1 ≤ 9 := by cases u <;> decide
+      simpa [body, natLevel, natSign, h, sign_toks_of_unop h] using Good.unary u g0 h9
+
+theorem step_un (u : UnOp) (x : Expr) (ih : SExpr x) : SExpr (.un u x) := by
+  intro hw ne hn c _
+  apply Good.render_of_body
+  simp only [wf] at hw
+  simp only [norm] at hn
+  cases hx : norm x with
+  | none => simp [hx] at hn
+  | some nx =>
+    simp only [hx, Option.map_some] at hn
     cases hn
-    apply Good.render_of_body
-    simpa [body, render, natLevel] using (Good.name (n := n))
-  | call f a _ => intro hf; simp [opFrag] at hf
-  | nil => intro hf; simp [opFrag] at hf
-  | cons k x r _ _ => intro hf; simp [opFrag] at hf
+    have ok : (⟨.un u, none⟩ : Ctx).ok := trivial
+    have g := ih hw nx hx ⟨.un u, none⟩ ok
+    have hl := need_le_lvl ⟨.un u, none⟩ ok x (wf_not_rem hw)
+    exact Good.unary u g hl
+
+theorem step_bin (b : BinOp) (l r : Expr) (ihl : SExpr l) (ihr : SExpr r) : SExpr (.bin b l r) := by
+  intro hw ne hn c _
+  apply Good.render_of_body
+  simp only [wf, Bool.and_eq_true, bne_iff_ne, ne_eq] at hw
+  obtain ⟨⟨hb, hwl⟩, hwr⟩ := hw
+  simp only [norm] at hn
+  cases hl : norm l with
+  | none => simp [hl] at hn
+  | some nl =>
+    cases hr : norm r with
+    | none => simp [hl, hr] at hn
+    | some nr =>
+      simp only [hl, hr] at hn
+      cases hn
+      have okl : (⟨.bin b false (decide (l = r)), childGp c⟩ : Ctx).ok := ⟨by simp, hb⟩
+      have okr : (⟨.bin b true true, childGp c⟩ : Ctx).ok := ⟨by simp, hb⟩
+      have gl := ihl hwl nl hl _ okl
+      have gr := ihr hwr nr hr _ okr
+      have nl' := need_le_lvl _ okl l (wf_not_rem hwl)
+      have nr' := need_le_lvl _ okr r (wf_not_rem hwr)
+      show Good (body c (.bin b l r)) b.prec (.bin b nl nr)
+      simp only [body]
+      cases b with
+      | rem => exact absurd rfl hb
+      | pow => exact Good.binOnce rfl rfl rfl (by decide) gl gr nl' nr'
+      | eq => exact Good.binOnce rfl rfl rfl (by decide) gl gr nl' nr'
+      | ne => exact Good.binOnce rfl rfl rfl (by decide) gl gr nl' nr'
+      | gt => exact Good.binOnce rfl rfl rfl (by decide) gl gr nl' nr'
+      | lt => exact Good.binOnce rfl rfl rfl (by decide) gl gr nl' nr'
+      | ge => exact Good.binOnce rfl rfl rfl (by decide) gl gr nl' nr'
+      | le => exact Good.binOnce rfl rfl rfl (by decide) gl gr nl' nr'
+      | add => exact Good.binLoop rfl rfl rfl (by decide) gl gr nl' nr'
+      | sub => exact Good.binLoop rfl rfl rfl (by decide) gl gr nl' nr'
+      | mul => exact Good.binLoop rfl rfl rfl (by decide) gl gr nl' nr'
+      | div => exact Good.binLoop rfl rfl rfl (by decide) gl gr nl' nr'
+      | and => exact Good.binLoop rfl rfl rfl (by decide) gl gr nl' nr'
+      | or => exact Good.binLoop rfl rfl rfl (by decide) gl gr nl' nr'
+      | eqv => exact Good.binLoop rfl rfl rfl (by decide) gl gr nl' nr'
+      | neqv => exact Good.binLoop rfl rfl rfl (by decide) gl gr nl' nr'
+
+theorem noPct_of_noLpPct {R} (h : NoLpPct R) : NoPct R := by
+  cases R with
+  | nil => trivial
+  | cons t r => cases t <;> simp_all [NoLpPct, NoPct]
+
+theorem wf_args_cases {a : Expr} (h : wf .args a = true) : a = .nil ∨ ∃ k x r, a = .cons k x r := by
+  cases a <;> simp_all [wf]
+
+theorem wf_chain_cases {a : Expr} (h : wf .chain a = true) : a = .nil ∨ ∃ n x r, a = .part n x r := by
+  cases a <;> simp_all [wf]
+
+/-- R611/R612 data-ref: `name [(args)] [% chain]` -/
+theorem step_chain (n : Nat) (a nx : Expr) (iha : SArgs a) (ihn : SChain nx) :
+    SChain (.part n a nx) := by
+  intro hw _ ne hn R hR
+  simp only [wf, Bool.and_eq_true] at hw
+  obtain ⟨hwa, hwn⟩ := hw
+  simp only [norm] at hn
+  cases hna : norm a with
+  | none => simp [hna] at hn
+  | some na =>
+    cases hnn : norm nx with
+    | none => simp [hna, hnn] at hn
+    | some nnx =>
+      simp only [hna, hnn] at hn
+      cases hn
+      rw [render_part]
+      by_cases ha : a = .nil
+      · subst ha
+        have : na = .nil := by simpa [norm] using hna.symm
+        subst this
+        by_cases hx : nx = .nil
+        · subst hx
+          have : nnx = .nil := by simpa [norm] using hnn.symm
+          subst this
+          simpa using Parses.partsLeaf (n := n) hR
+        · have := ihn hwn hx nnx hnn R hR
+          simpa [hx] using Parses.partsMem (n := n) this
+      · by_cases hx : nx = .nil
+        · subst hx
+          have : nnx = .nil := by simpa [norm] using hnn.symm
+          subst this
+          have := iha hwa ha na hna R
+          simpa [ha] using Parses.partsIdx (n := n) this (noPct_of_noLpPct hR)
+        · have h1 := iha hwa ha na hna (.pct :: (render .wide .top nx ++ R))
+          have h2 := ihn hwn hx nnx hnn R hR
+          simpa [ha, hx] using Parses.partsIdxMem (n := n) h1 h2
+
+theorem render_part_ne_nil (m c n a nx) : render m c (.part n a nx) ≠ [] := by
+  rw [render_part]; simp
+
+/-- a designator in expression position -/
+theorem step_part (n : Nat) (a nx : Expr) (iha : SArgs a) (ihn : SChain nx) :
+    SExpr (.part n a nx) := by
+  intro hw ne hn c _
+  have hc := step_chain n a nx iha ihn (by simpa [wf] using hw) (by simp) ne hn
+  have e0 : ∀ c', render .wide c' (.part n a nx) = render .wide .top (.part n a nx) := by
+    intro c'; rw [render_part, render_part]
+  have hd : ∃ r, render .wide c (.part n a nx) = .name n :: r := by rw [render_part]; exact ⟨_, rfl⟩
+  obtain ⟨r, hr⟩ := hd
+  show Good _ (lvl c (.part n a nx)) ne
+  have hl : lvl c (.part n a nx) = 9 := by simp [lvl, wrapped, natLevel]
+  rw [hl]
+  refine Good.of_nat (Nat.le_refl _) ?_ ?_ (fun h9 => absurd h9 (by omega))
+  · intro j R _; rw [hr]; rfl
+  · intro R hF
+    have := hc R hF.noLpPct
+    rw [← e0 c, hr] at this
+    rw [hr]
+    exact Parses.exprParts this
+
+/-- R1219 function-reference: `name ( args )` -/
+theorem step_call (f : Nat) (a : Expr) (iha : SArgs a) : SExpr (.call f a) := by
+  intro hw ne hn c _
+  simp only [wf, Bool.and_eq_true] at hw
+  obtain ⟨⟨hcons, hwa⟩, _⟩ := hw
+  have ha : a ≠ .nil := by intro h; subst h; simp at hcons
+  simp only [norm] at hn
+  cases hna : norm a with
+  | none => simp [hna] at hn
+  | some na =>
+    simp only [hna, Option.map_some] at hn
+    cases hn
+    have hl : lvl c (.call f a) = 9 := by simp [lvl, wrapped, natLevel]
+    rw [hl]
+    simp only [render]
+    refine Good.of_nat (Nat.le_refl _) (fun _ _ _ => rfl) ?_ (fun h9 => absurd h9 (by omega))
+    intro R _
+    have := iha hwa ha na hna R
+    have e : (Tok.fn f :: Tok.lp :: render .wide .top a ++ [Tok.rp]) ++ R =
+        .fn f :: .lp :: (render .wide .top a ++ .rp :: R) := by simp
+    rw [e]
+    exact Parses.call this
+
+/-- R1222 actual-arg-spec list: `[kw =] expr {, [kw =] expr}` up to the closing parenthesis -/
+theorem step_cons (kw : Option Nat) (x rest : Expr) (ihx : SExpr x) (ihr : SArgs rest) :
+    SArgs (.cons kw x rest) := by
+  intro hw _ ne hn R'
+  simp only [wf, Bool.and_eq_true] at hw
+  obtain ⟨hwx, hwr⟩ := hw
+  simp only [norm] at hn
+  cases hnx : norm x with
+  | none => simp [hnx] at hn
+  | some nx =>
+    cases hnr : norm rest with
+    | none => simp [hnx, hnr] at hn
+    | some nr =>
+      simp only [hnx, hnr] at hn
+      cases hn
+      have g := ihx hwx nx hnx .top trivial
+      rw [render_cons]
+      by_cases hr : rest = .nil
+      · subst hr
+        have : nr = .nil := by simpa [norm] using hnr.symm
+        subst this
+        have px := g.1 0 (.rp :: R') (Nat.zero_le _) trivial
+        cases kw with
+        | none =>
+          simpa [kwToks] using Parses.argsLast (render_noKw .wide x .top hwx _) px trivial
+        | some k =>
+          simpa [kwToks] using Parses.argsLastKw (k := k) px trivial
+      · have pr := ihr hwr hr nr hnr R'
+        have px := g.1 0 (.comma :: (render .wide .top rest ++ .rp :: R')) (Nat.zero_le _) trivial
+        cases kw with
+        | none =>
+          simpa [hr, kwToks] using Parses.argsMore (render_noKw .wide x .top hwx _) px pr
+        | some k =>
+          simpa [hr, kwToks] using Parses.argsMoreKw (k := k) px pr
+
+/-- **All sorts, all trees.** -/
+theorem good_sorted : ∀ e : Expr, SExpr e ∧ SArgs e ∧ SChain e := by
+  intro e
+  induction e with
+  | lit l => exact ⟨step_lit l, fun h => by simp [wf] at h, fun h => by simp [wf] at h⟩
+  | un u x ih => exact ⟨step_un u x ih.1, fun h => by simp [wf] at h, fun h => by simp [wf] at h⟩
+  | bin b l r ihl ihr =>
+    exact ⟨step_bin b l r ihl.1 ihr.1, fun h => by simp [wf] at h, fun h => by simp [wf] at h⟩
+  | part n a nx iha ihn =>
+    exact ⟨step_part n a nx iha.2.1 ihn.2.2, fun h => by simp [wf] at h,
+      step_chain n a nx iha.2.1 ihn.2.2⟩
+  | call f a iha =>
+    exact ⟨step_call f a iha.2.1, fun h => by simp [wf] at h, fun h => by simp [wf] at h⟩
+  | nil => exact ⟨fun h => by simp [wf] at h, fun _ h => absurd rfl h, fun _ h => absurd rfl h⟩
+  | cons k x r ihx ihr =>
+    exact ⟨fun h => by simp [wf] at h, step_cons k x r ihx.1 ihr.2.1, fun h => by simp [wf] at h⟩
+
+theorem good_render (e : Expr) (hw : wf .expr e = true) (ne : Expr) (hn : norm e = some ne)
+    (c : Ctx) (hc : c.ok) : Good (render .wide c e) (lvl c e) ne :=
+  (good_sorted e).1 hw ne hn c hc
 
 /-! ### the narrow writer agrees with the wide rule outside the class `exposed` -/
 
